@@ -182,6 +182,16 @@ theorem accepted_effective_is_expansion (store : Store) (W : World) (fuel : Nat)
 
 /-! ### non-vacuity -/
 
+/-- a member named like the generated length member of a dynamic array member is a duplicate, whichever comes first
+    (finding F31: it used to be accepted, and the generated C did not compile) -/
+def dynMember : Y := .map [("a", .map [("field-type", .map [("class", .str "dynamic-array"),
+  ("element-field-type", .map [("class", .str "unsigned-integer"), ("size", .int 8), ("alignment", .int 8),
+                               ("preferred-display-base", .str "decimal")])])])]
+def lenNamedMember : Y := .map [("__a_len", .map [("field-type", .map [("class", .str "unsigned-integer"), ("size", .int 16),
+  ("alignment", .int 8), ("preferred-display-base", .str "decimal")])])]
+example : (createMembers 8 [dynMember, lenNamedMember] []).isErr (.other "Duplicate member `__a_len`") = true := by decide +kernel
+example : (createMembers 8 [lenNamedMember, dynMember] []).isErr (.other "Duplicate member `__a_len`") = true := by decide +kernel
+example : (createMembers 8 [dynMember] []).isOkWith () = true := by decide +kernel
 example : validate Gen.store 8 (.ref (K_common "int-ft-size-prop")) (.int 64) = some true := by decide +kernel
 example : validate Gen.store 8 (.ref (K_common "int-ft-size-prop")) (.int 65) = some false := by decide +kernel
 example : validate Gen.store 8 (.ref (K_common "int-ft-size-prop")) (.float "8.0") = some false := by decide +kernel
